@@ -37,7 +37,8 @@ TRUSTED_BASE = [
     'axioms allowed per theorem: propext, Classical.choice, Quot.sound (audited with #print axioms on every run)',
     'statements in lean/FemtoVerif/Props/*.lean and the executable models / reference controller they mention',
     'the correspondence harness (generators, canonicalisation, tolerances) in /verif/harness and the Lean driver',
-    'regenerated files lean/FemtoVerif/Gen/*.lean produced by /verif/tools (translator and data extractor)',
+    'regenerated files lean/FemtoVerif/Gen/*.lean produced on every run by /verif/harness/gen.py (laser headers, PSO labels) and '
+    '/verif/harness/py2lean.py (Python AST -> Lean for eleven arithmetic kernels, with generated tie theorems)',
 ]
 
 
